@@ -10,18 +10,19 @@ Definition sreply (s : csend) : reply := k_reply (s_tick s).
 Definition smode (s : csend) : rmode := classify (sreply s) (k_ctx_cls (s_tick s)) (k_closed (s_tick s)).
 
 (** [s2] is a legitimate successor of [s1] *)
-Definition follows (s1 s2 : csend) : Prop :=
+Definition follows (c : ccfg) (retryable : bool) (s1 s2 : csend) : Prop :=
   if is_expired (sreply s1) then s_why s2 = WExpired
   else match smode s1 with
        | ModeMove a => s_to s2 = a /\ s_kind s2 = SPlain /\ s_why s2 = WRedirect
        | ModeAsk a => s_to s2 = a /\ s_kind s2 = SAsking /\ s_why s2 = WRedirect
-       | ModeRetry => s_why s2 = WRetry
+       | ModeRetry => s_why s2 = WRetry /\ p_retry (cc_policy c) = true /\ retryable = true /\
+                      exists a, wait_or_skip (p_delay (cc_policy c) a (sreply s1)) (k_left (s_tick s1)) = true
        | ModeNone => False
        end.
 
-Fixpoint chain_ok (tr : list csend) : Prop :=
+Fixpoint chain_ok (c : ccfg) (retryable : bool) (tr : list csend) : Prop :=
   match tr with
-  | s1 :: ((s2 :: _) as r) => follows s1 s2 /\ chain_ok r
+  | s1 :: ((s2 :: _) as r) => follows c retryable s1 s2 /\ chain_ok c retryable r
   | _ => True
   end.
 
@@ -53,7 +54,7 @@ Definition dest_of (ph : phase) (st : cstate) (slot : Z) (to_replica : bool) (ct
   | PhMoved _ n | PhAsk _ n => Some n
   end.
 
-Lemma chain_cons s tr : chain_ok tr -> match tr with [] => True | s2 :: _ => follows s s2 end -> chain_ok (s :: tr).
+Lemma chain_cons c retryable s tr : chain_ok c retryable tr -> match tr with [] => True | s2 :: _ => follows c retryable s s2 end -> chain_ok c retryable (s :: tr).
 Proof. destruct tr; cbn; auto. Qed.
 
 Section Loop.
@@ -63,7 +64,7 @@ Variables (c : ccfg) (slot : Z) (retryable to_replica : bool).
     nothing is sent on a done context *)
 Lemma do_loop_chain : forall fuel st ph w attempts redirects env tr out st',
   do_loop fuel c slot retryable to_replica st ph w attempts redirects env = (tr, out, st') ->
-  chain_ok tr /\ head_ok ph w tr /\
+  chain_ok c retryable tr /\ head_ok ph w tr /\
   (forall ct env', (0 < fuel)%nat -> env = ct :: env' -> k_ctx_call (ct_tick ct) = false ->
      forall d, dest_of ph st slot to_replica ct = Some d -> exists s rest, tr = s :: rest /\ s_to s = d) /\
   (forall ct env', env = ct :: env' -> k_ctx_call (ct_tick ct) = true -> tr = []).
@@ -106,8 +107,8 @@ Proof.
       assert (Hgo : forall st1 ph1 w1 a1 rd1,
                  (let '(tr1, o, s') := do_loop f c slot retryable to_replica st1 ph1 w1 a1 rd1 env' in ([s] ++ tr1, o, s')) = (tr, out, st') ->
                  (forall s2, head_ok ph1 w1 (s2 :: nil) -> True) ->
-                 (forall tr1, head_ok ph1 w1 tr1 -> match tr1 with [] => True | s2 :: _ => follows s s2 end) ->
-                 chain_ok tr /\ head_ok ph w tr /\
+                 (forall tr1, head_ok ph1 w1 tr1 -> match tr1 with [] => True | s2 :: _ => follows c retryable s s2 end) ->
+                 chain_ok c retryable tr /\ head_ok ph w tr /\
                  (forall ct0 env0, (0 < S f)%nat -> ct :: env' = ct0 :: env0 -> k_ctx_call (ct_tick ct0) = false ->
                     forall d0, dest_of ph st slot to_replica ct0 = Some d0 -> exists s0 rest, tr = s0 :: rest /\ s_to s0 = d0) /\
                  (forall ct0 env0, ct :: env' = ct0 :: env0 -> k_ctx_call (ct_tick ct0) = true -> tr = [])).
@@ -134,10 +135,11 @@ Proof.
            ++ apply (Hgo _ _ _ _ _ H); [auto|].
               intros tr1 Hh. destruct tr1 as [|s2 r]; [exact I|]. unfold follows, sreply, smode, sreply. cbn [s s_tick].
               rewrite EX, CL. destruct Hh as [Hw [Ht Hk]]. auto.
-        -- destruct (p_retry (cc_policy c) && retryable && wait_or_skip (p_delay (cc_policy c) attempts (k_reply t)) (k_left t)).
+        -- destruct (p_retry (cc_policy c) && retryable && wait_or_skip (p_delay (cc_policy c) attempts (k_reply t)) (k_left t)) eqn:Cond.
            ++ apply (Hgo _ _ _ _ _ H); [auto|].
               intros tr1 Hh. destruct tr1 as [|s2 r]; [exact I|]. unfold follows, sreply, smode, sreply. cbn [s s_tick].
-              rewrite EX, CL. exact (proj1 Hh).
+              rewrite EX, CL. apply andb_true_iff in Cond. destruct Cond as [Cond W]. apply andb_true_iff in Cond. destruct Cond as [C1 C2].
+              split; [exact (proj1 Hh)|]. split; [exact C1|]. split; [exact C2|]. exists attempts. exact W.
            ++ inversion H; subst. split; [exact I|split; [exact Hhead|split; [apply (Hfirst [])|apply (Hnone [])]]].
 Qed.
 
@@ -253,4 +255,70 @@ Proof.
     + destruct ((0 <? cc_max c) && (cc_max c <? redirects + 1)); [inversion H; subst; discriminate|eapply Hgo; exact H].
     + destruct ((0 <? cc_max c) && (cc_max c <? redirects + 1)); [inversion H; subst; discriminate|eapply Hgo; exact H].
     + destruct (p_retry (cc_policy c) && retryable && wait_or_skip _ _); [eapply Hgo; exact H|inversion H; subst; discriminate].
+Qed.
+
+(** ---- C03 for the cluster client ---- *)
+Lemma classify_move r x y a : classify r x y = ModeMove a -> r = RMoved a.
+Proof. destruct r; cbn; destruct y; try discriminate; try (destruct x; discriminate); intro H; inversion H; reflexivity. Qed.
+Lemma classify_ask r x y a : classify r x y = ModeAsk a -> r = RAsk a.
+Proof. destruct r; cbn; destruct y; try discriminate; try (destruct x; discriminate); intro H; inversion H; reflexivity. Qed.
+
+(** every send is an attempt of the environment that was really written *)
+Lemma do_loop_sends_env c slot retryable to_replica : forall fuel st ph w attempts redirects env tr out st',
+  do_loop fuel c slot retryable to_replica st ph w attempts redirects env = (tr, out, st') ->
+  forall s, In s tr -> exists ct, In ct env /\ s_tick s = ct_tick ct.
+Proof.
+  induction fuel as [|f IH]; intros st ph w attempts redirects env tr out st' H s Hin.
+  - cbn in H. injection H as Htr _ _. subst tr. destruct Hin.
+  - destruct env as [|ct env']; [cbn in H; injection H as Htr _ _; subst tr; destruct Hin|].
+    cbn [do_loop] in H.
+    destruct (match ph with
+              | PhRetry => pick_slot (cs_table match ph with PhRetry => install st ct | _ => st end) slot to_replica (ct_nsel ct)
+              | PhMoved _ n | PhAsk _ n => Some n
+              end) as [d|]; [|injection H as Htr _ _; subst tr; destruct Hin].
+    set (t := effective (ct_tick ct)) in *.
+    set (here := if k_ctx_call (ct_tick ct) then [] else [mkCsend d (match ph with PhAsk _ _ => SAsking | _ => SPlain end) w t]) in *.
+    assert (Hhere : forall x, In x here -> exists ct0, In ct0 (ct :: env') /\ s_tick x = ct_tick ct0).
+    { intros x Hx. unfold here in Hx. destruct (k_ctx_call (ct_tick ct)) eqn:CC; [destruct Hx|].
+      destruct Hx as [<-|[]]. exists ct. split; [now left|]. cbn [s_tick]. unfold t. now apply effective_live. }
+    assert (Hdone : forall o st1, (here, o, st1) = (tr, out, st') -> exists ct0, In ct0 (ct :: env') /\ s_tick s = ct_tick ct0).
+    { intros o st1 E. injection E as E1 _ _. subst tr. now apply Hhere. }
+    assert (Hgo : forall st1 ph1 w1 a1 rd1,
+               (let '(tr1, o, s') := do_loop f c slot retryable to_replica st1 ph1 w1 a1 rd1 env' in (here ++ tr1, o, s')) = (tr, out, st') ->
+               exists ct0, In ct0 (ct :: env') /\ s_tick s = ct_tick ct0).
+    { intros st1 ph1 w1 a1 rd1 E.
+      destruct (do_loop f c slot retryable to_replica st1 ph1 w1 a1 rd1 env') as [[tr1 o1] s1'] eqn:R.
+      injection E as E1 _ _. subst tr. apply in_app_or in Hin. destruct Hin as [Hx|Hx]; [now apply Hhere|].
+      destruct (IH _ _ _ _ _ _ _ _ _ R s Hx) as [ct0 [I0 E0]]. exists ct0. split; [now right|exact E0]. }
+    destruct (is_expired (k_reply t)); [eapply Hgo; exact H|].
+    destruct (classify (k_reply t) (k_ctx_cls t) (k_closed t)).
+    + eapply Hdone; exact H.
+    + destruct ((0 <? cc_max c) && (cc_max c <? redirects + 1)); [eapply Hdone|eapply Hgo]; exact H.
+    + destruct ((0 <? cc_max c) && (cc_max c <? redirects + 1)); [eapply Hdone|eapply Hgo]; exact H.
+    + destruct (p_retry (cc_policy c) && retryable && wait_or_skip _ _); [eapply Hgo|eapply Hdone]; exact H.
+Qed.
+
+Definition cexpired_executed (s : csend) : bool := is_expired (sreply s) && k_executed (s_tick s).
+
+(** a chain of sends of a non-retryable command: every send but the last was refused (MOVED / ASK)
+    or ended with an expired connection *)
+Lemma chain_c03 c : forall tr,
+  chain_ok c false tr -> (forall s, In s tr -> consistent (s_tick s) = true) ->
+  (cexecutions tr <= 1 + length (filter cexpired_executed tr))%nat.
+Proof.
+  induction tr as [|s1 r IH]; intros Hc Hk; [cbn; lia|].
+  destruct r as [|s2 r2].
+  - unfold cexecutions. cbn. destruct (k_executed (s_tick s1)); destruct (cexpired_executed s1); cbn; lia.
+  - destruct Hc as [F C]. specialize (IH C (fun s Hs => Hk s (or_intror Hs))).
+    assert (X : (cexecutions [s1] <= length (filter cexpired_executed [s1]))%nat).
+    { unfold cexecutions. cbn [filter]. unfold cexpired_executed. unfold follows in F.
+      destruct (is_expired (sreply s1)) eqn:E; cbn [andb].
+      - destruct (k_executed (s_tick s1)); cbn; lia.
+      - pose proof (Hk s1 (or_introl eq_refl)) as K. unfold consistent in K. apply andb_true_iff in K. destruct K as [K _].
+        unfold smode in F. destruct (classify (sreply s1) _ _) eqn:CL; try contradiction.
+        + apply classify_move in CL. unfold sreply in CL. rewrite CL in K. apply negb_true_iff in K. rewrite K. cbn. lia.
+        + apply classify_ask in CL. unfold sreply in CL. rewrite CL in K. apply negb_true_iff in K. rewrite K. cbn. lia.
+        + destruct F as [_ [_ [F _]]]. discriminate. }
+    change (s1 :: s2 :: r2) with ([s1] ++ s2 :: r2).
+    unfold cexecutions in *. rewrite !filter_app, !app_length. lia.
 Qed.
